@@ -205,6 +205,15 @@ def rejections(ctx):
     # "shorter than the declared length" is a special case of "length differs": a parser that only makes the second test rejects the same inputs
     required = want - {"body-shorter-than-length"}
     ctx.ob("R14.3", "rejections|complete", required <= set(seen) <= want, "rejection causes found: %s; missing: %s" % (sorted(seen), sorted(required - set(seen))), fn.loc(0))
+    # the length gate may only reject lines no request line can fit in: method SP 1-byte-URI SP version
+    if "short-line" in seen:
+        from ..tables import eval_usize, enum_const_table
+        fm, fv = ctx.facts.fn("common::Method::raw"), ctx.facts.fn("common::Version::raw")
+        shortest = min(len(v) for v in enum_const_table(ctx.facts, fm, "common::Method").values()) + 1 + 1 + 1 + min(len(v) for v in enum_const_table(ctx.facts, fv, "common::Version").values())
+        fml, lml = leaves(ctx, "request::RequestLine::min_len")
+        vals = {eval_usize(ctx.facts, l.ret()) for l in lml if l.kind == "return"}
+        ok = bool(vals) and None not in vals and max(vals) <= shortest
+        ctx.ob("R14.3", "rejection|short-line|threshold", ok, "RequestLine::min_len() evaluates to %s; the shortest request line the incremental parser accepts has %d bytes (shortest method + SP + 1 + SP + shortest version), so a larger threshold makes the one-shot parser reject what the connection delivers" % (sorted(vals, key=str), shortest), fml.loc(0))
     ctx.ob("R14.3", "accepting-paths", n_ok >= 3, "%d accepting paths (floor 3: no headers / headers without body / with body)" % n_ok, fn.loc(0))
     # accepted value
     names = [f["name"] for f in ctx.facts.struct_fields("request::Request")]
